@@ -180,4 +180,41 @@ theorem stepThread_arm {s t tid alt} : ArmStep s t tid alt := by
   | 4 => exact arm_g4 hg | 5 => exact arm_g5 hg | 6 => exact arm_g6 hg | 7 => exact arm_g7 hg
   | n + 8 => omega
 
+
+/-! ### what a producer's step cannot touch -/
+
+def PStep (s : Shared) (t : Thread) (tid : Tid) (alt : Bool) : Prop :=
+  ∀ lbl s' t', stepThread s t tid alt = some (lbl, s', t') → pcKind t.pc = some .producer → t.pc ≠ .eNext →
+    s'.exhausted = s.exhausted ∧ s'.lost = s.lost ∧ s'.dequeued = s.dequeued ∧
+    (s'.q = s.q ∨ (t.pc = .pPut ∧ t'.pc = .pStAcq))
+
+set_option hygiene false in
+macro "pstep_group" : tactic => `(tactic| (
+  intro lbl s' t' h hk hne
+  unfold stepThread at h
+  cases hpc : t.pc <;> (try (simp only [hpc, Pc.group] at hg; omega)) <;>
+    simp only [hpc] at h hne hk <;>
+    (try (simp [pcKind] at hk; done)) <;>
+    (try simp only [acquire, release, notify, waitPark, waitWake, goto, enqLoop, putLoop, batchLoop,
+      afterRaise, afterValue] at h) <;>
+    (repeat' split at h) <;>
+    (try simp only [Option.some.injEq, Prod.mk.injEq, reduceCtorEq] at h) <;>
+    (try (obtain ⟨-, rfl, rfl⟩ := h)) <;>
+    simp_all [Shared.setOwner]))
+
+theorem pstep_g4 {s t tid alt} (hg : t.pc.group = 4) : PStep s t tid alt := by pstep_group
+theorem pstep_g5 {s t tid alt} (hg : t.pc.group = 5) : PStep s t tid alt := by pstep_group
+theorem pstep_g6 {s t tid alt} (hg : t.pc.group = 6) : PStep s t tid alt := by pstep_group
+
+theorem group_of_producer {pc : Pc} (h : pcKind pc = some .producer) :
+    pc.group = 4 ∨ pc.group = 5 ∨ pc.group = 6 := by
+  cases pc <;> simp [pcKind, Pc.group] at h ⊢ <;> (rename_i c; cases c <;> simp at h)
+
+theorem stepThread_pstep {s t tid alt} : PStep s t tid alt := by
+  intro lbl s' t' h hk hne
+  rcases group_of_producer hk with hg | hg | hg
+  · exact pstep_g4 hg lbl s' t' h hk hne
+  · exact pstep_g5 hg lbl s' t' h hk hne
+  · exact pstep_g6 hg lbl s' t' h hk hne
+
 end MlModel.Queue
